@@ -31,6 +31,8 @@ type Config struct {
 	MapPermMax       int
 	MapVariants      int
 	MapOrderBudget   int
+	PreemptAtLocks   bool
+	DelayBound       int
 	TrackLib         bool
 	Workers          int
 	TimeoutMs        int
@@ -43,7 +45,7 @@ type Config struct {
 
 func defaultConfig() Config {
 	return Config{Preempt: 2, MaxSteps: 2000000, Unwind: 4096, MaxDepth: 200, MaxConcretize: 300,
-		AllocCap: 16, MaxConcreteAlloc: 1 << 20, MapPermMax: 3, MapVariants: 2, MapOrderBudget: 2, Workers: 16,
+		AllocCap: 16, MaxConcreteAlloc: 1 << 20, MapPermMax: 3, MapVariants: 2, MapOrderBudget: 2, DelayBound: -1, Workers: 16,
 		TimeoutMs: 10000, Solvers: []string{"z3", "cvc5-int", "cvc5"}, MaxPaths: 2000000,
 		Params: map[string]int{}}
 }
@@ -63,6 +65,7 @@ type Engine struct {
 	intr      map[string]intrinsicFn
 	intrCache sync.Map // *ssa.Function -> intrinsicFn or nil marker
 	harnessFn sync.Map
+	hcfg      map[string]*Config
 
 	runtimeErrorType types.Type
 	errorStringPtr   types.Type
@@ -319,7 +322,7 @@ func (e *Engine) explore(harnesses []*ssa.Function) {
 }
 
 func (e *Engine) runPath(sol *Solver, it workItem) *Path {
-	p := &Path{eng: e, tc: NewTermCtx(), sol: sol, harness: it.harness, prefix: it.prefix,
+	p := &Path{eng: e, cfg: e.cfgFor(it.harness.Name()), tc: NewTermCtx(), sol: sol, harness: it.harness, prefix: it.prefix,
 		globals: map[*ssa.Global]*value{}, initDone: map[*ssa.Package]bool{},
 		inputIdx: map[string]int{}, choices: map[string]int{}, reach: map[string]bool{},
 		notes: map[string]int{}, funcsRun: map[*ssa.Function]bool{}, ghost: map[string]value{},
@@ -344,6 +347,15 @@ func (e *Engine) runPath(sol *Solver, it workItem) *Path {
 		p.makeSample()
 	}
 	return p
+}
+
+// cfgFor returns the configuration of a harness (property-wide settings plus the
+// harness's own overrides).
+func (e *Engine) cfgFor(h string) *Config {
+	if c, ok := e.hcfg[h]; ok {
+		return c
+	}
+	return &e.cfg
 }
 
 func (e *Engine) sampleWanted(p *Path) bool {
